@@ -50,7 +50,107 @@ def c14_1(ctx):
     return out
 
 
+def _mnemonic_codec_cells(ctx):
+    """bytes_to_mnemonic / mnemonic_to_bytes over a free checksum hash and a transparent word list (word i is written `w<i>`): for every
+    entropy size 128 .. 256 bits and for sizes the standard does not allow, with entropies whose bytes all differ, start with zero bytes or are
+    all ones.  The phrase must be the 11-bit groups, most significant first, of entropy ‖ first ENT/32 bits of H(entropy); decoding must give the
+    entropy back, and must refuse a phrase whose checksum bits differ.  None when the functions are outside the evaluator's subset."""
+    import hashlib
+    from sa.cells import Evaluator, Obj, Raised, Undecided
+    spec_e, spec_d = "mnemonic:bytes_to_mnemonic", "mnemonic:mnemonic_to_bytes"
+    mod, fn = rl.get(ctx, spec_e)
+    mod2, fn2 = rl.get(ctx, spec_d)
+    H = lambda b: hashlib.sha256(b"free-hash:" + bytes(b)).digest()   # stand-in: any function of the bytes, so that the checksum is not a known vector
+
+    def getitem(o, key):
+        if isinstance(key, int) and not isinstance(key, bool):
+            if not 0 <= key < 2048:
+                raise Raised("IndexError")
+            return "w%d" % key
+        if isinstance(key, str) and key.startswith("w") and key[1:].isdigit() and int(key[1:]) < 2048:
+            return int(key[1:])
+        raise Raised("KeyError")
+    wl = Obj("mnemonic", "WordList", {})
+    hooks = {("WordList", "__getitem__"): getitem, ("WordList", "__contains__"): lambda o, k: isinstance(k, str) and k.startswith("w")}
+
+    def opaque(name, args, kw):
+        if name == "sha256":
+            return H(args[0])
+        return NotImplemented
+
+    def reference(ent):
+        bits = len(ent) * 8
+        cs = bits // 32
+        total = (int.from_bytes(ent, "big") << cs) | (H(ent)[0] >> (8 - cs))
+        n = (bits + cs) // 11
+        return ["w%d" % ((total >> (11 * (n - 1 - i))) & 0x7FF) for i in range(n)]
+    out = []
+    try:
+        for bits in (128, 160, 192, 224, 256):
+            nb = bits // 8
+            for ent in (bytes(range(1, nb + 1)), bytes(2) + bytes(range(200, 200 + nb - 2)), b"\xff" * nb, bytes(nb)):
+                ctx.count("cells")
+                want = reference(ent)
+                try:
+                    r = Evaluator(ctx.repo, opaque=opaque, externals={"BIP39": wl}, method_hooks=hooks).call(spec_e, [ent, bits])
+                except Raised as x:
+                    return [ctx.bad(spec_e, "bytes_to_mnemonic raises %s for %d bits of entropy" % (x.name, bits), fn, mod, key="bit-order")]
+                if not isinstance(r, str) or r.split() != want:
+                    got = r.split() if isinstance(r, str) else r
+                    why = "%d words instead of %d" % (len(got), len(want)) if isinstance(got, list) and len(got) != len(want) else "the 11-bit groups are not entropy ‖ checksum, most significant first"
+                    return [ctx.bad(spec_e, "for %d bits of entropy (%s…) the phrase is wrong: %s" % (bits, ent.hex()[:8], why), fn, mod, key="formula-enc" if "words" in why else "bit-order")]
+                try:
+                    back = Evaluator(ctx.repo, opaque=opaque, externals={"BIP39": wl}, method_hooks=hooks).call(spec_d, [" ".join(want)])
+                except Raised as x:
+                    return [ctx.bad(spec_d, "mnemonic_to_bytes refuses the phrase of %d bits of entropy (%s)" % (bits, x.name), fn2, mod2, key="formula-dec")]
+                if back != ent:
+                    return [ctx.bad(spec_d, "mnemonic_to_bytes of the phrase of %d bits of entropy gives %s…, not the entropy" % (bits, back.hex()[:8] if isinstance(back, bytes) else back),
+                                    fn2, mod2, key="formula-dec")]
+                bad_phrase = list(want)
+                bad_phrase[-1] = "w%d" % (int(want[-1][1:]) ^ 1)      # flips the last checksum bit
+                try:
+                    Evaluator(ctx.repo, opaque=opaque, externals={"BIP39": wl}, method_hooks=hooks).call(spec_d, [" ".join(bad_phrase)])
+                    return [ctx.bad(spec_d, "a %d-word phrase whose last checksum bit is flipped is accepted" % len(want), fn2, mod2, key="checksum")]
+                except Raised:
+                    pass
+        for bits in (64, 96, 136, 288, 512):
+            ctx.count("cells")
+            try:
+                Evaluator(ctx.repo, opaque=opaque, externals={"BIP39": wl}, method_hooks=hooks).call(spec_e, [bytes(bits // 8), bits])
+                return [ctx.bad(spec_e, "%d bits of entropy are accepted; BIP39 allows 128, 160, 192, 224, 256" % bits, fn, mod, key="table")]
+            except Raised:
+                pass
+        for nwords in (3, 6, 9, 11, 13, 27):
+            ctx.count("cells")
+            try:
+                Evaluator(ctx.repo, opaque=opaque, externals={"BIP39": wl}, method_hooks=hooks).call(spec_d, [" ".join(["w1"] * nwords)])
+                return [ctx.bad(spec_d, "a phrase of %d words is accepted; BIP39 allows 12, 15, 18, 21, 24" % nwords, fn2, mod2, key="table")]
+            except Raised:
+                pass
+    except Undecided:
+        return None
+    return [ctx.ok(spec_e, "accepted sizes %s" % (BITS,), fn, mod, key="table"), ctx.ok(spec_d, "accepted sizes %s" % (WORDS,), fn2, mod2, key="table"),
+            ctx.ok(spec_d, "checksum bits = w/3 = ENT/32 and bytes = ENT/8 for w ∈ %s" % (WORDS,), fn2, mod2, key="formula-dec"),
+            ctx.ok(spec_e, "checksum bits = ENT/32 and (ENT + CS)/11 words for ENT ∈ %s" % (BITS,), fn, mod, key="formula-enc"),
+            ctx.ok("mnemonic:bytes_to_mnemonic↔mnemonic_to_bytes", "11-bit groups: first word holds the most significant bits on both sides (free checksum hash, 20 entropies)", fn, mod,
+                   key="bit-order")]
+
+
 def c14_2(ctx):
+    ev = _mnemonic_codec_cells(ctx)
+    if ev is not None:
+        # secure_mnemonic's own size table is still read from its source
+        mod_s, fn_s = rl.get(ctx, "mnemonic:secure_mnemonic")
+        f_s = Folder(ctx.repo, mod_s.name)
+        tabs_s = [f_s.fold(c.comparators[0]) for c in ast.walk(fn_s) if isinstance(c, ast.Compare) and isinstance(c.ops[0], (ast.In, ast.NotIn))]
+        tabs_s = [tuple(t) for t in tabs_s if isinstance(t, (tuple, list)) and all(isinstance(x, int) for x in t)]
+        if tuple(BITS) in tabs_s:
+            ev.append(ctx.ok("mnemonic:secure_mnemonic", "accepted sizes %s" % (BITS,), fn_s, mod_s, key="table"))
+        elif tabs_s:
+            ev.append(ctx.bad("mnemonic:secure_mnemonic", "accepted sizes %s, BIP39: %s" % (tabs_s, BITS), fn_s, mod_s, key="table"))
+        else:
+            ev.append(ctx.err("mnemonic:secure_mnemonic", "size table not found", fn_s, mod_s))
+        return ev
     out = []
     # tables
     for spec, want in (("mnemonic:mnemonic_to_bytes", WORDS), ("mnemonic:bytes_to_mnemonic", BITS), ("mnemonic:secure_mnemonic", BITS)):
@@ -250,8 +350,75 @@ def c14_4(ctx):
     return out
 
 
+def _pbkdf2_cells(ctx):
+    """PBKDF2.read over a free pseudo-random function (a stand-in of 20 output bytes, keyed like HMAC): for iteration counts 1, 2, 3, 7 and key
+    lengths around the block size (1, 19, 20, 21, 40, 45, 64 bytes), in one read and split over two reads, the stream must be
+    T_1 ‖ T_2 ‖ … with T_i = U_1 xor … xor U_c, U_1 = PRF(P, S ‖ INT32BE(i)), U_j = PRF(P, U_{j-1}) (RFC 2898).  None when the class is outside
+    the evaluator's subset."""
+    import hashlib
+    import struct
+    from sa.cells import Evaluator, Obj, Raised, Undecided
+    spec = "pbkdf2:PBKDF2.read"
+    mod, fn = ctx.repo.func(spec)
+    ctx.note_fn(mod, fn)
+    Fa = lambda key, msg: hashlib.sha1(b"prf" + bytes(key) + b"|" + bytes(msg)).digest()
+    # a second stand-in whose outputs begin and end with a zero byte: blocks with leading / trailing zeros are ordinary values (1 in 256 each)
+    Fz = lambda key, msg: b"\x00" + hashlib.sha1(b"prz" + bytes(key) + b"|" + bytes(msg)).digest()[1:19] + b"\x00"
+    res = None
+    for F in (Fa, Fz):
+        res = _pbkdf2_cells_with(ctx, spec, mod, fn, F)
+        if res is None or any(r.status != "ok" for r in res):
+            return res
+    return res
+
+
+def _pbkdf2_cells_with(ctx, spec, mod, fn, F):
+    import struct
+    from sa.cells import Evaluator, Obj, Raised, Undecided
+
+    def ref(pw, salt, c, n):
+        out_, i = b"", 0
+        while len(out_) < n:
+            i += 1
+            U = F(pw, salt + struct.pack("!L", i))
+            T = U
+            for _ in range(c - 1):
+                U = F(pw, U)
+                T = bytes(x ^ y for x, y in zip(T, U))
+            out_ += T
+        return out_[:n]
+    ext = {"pack": struct.pack, "xrange": range, "b": lambda s_: s_.encode("latin-1") if isinstance(s_, str) else s_}
+    try:
+        for c in (1, 2, 3, 7):
+            for n in (1, 19, 20, 21, 40, 45, 64):
+                for split in (None, n // 3):
+                    ctx.count("cells")
+                    me = Obj("pbkdf2", "PBKDF2", {"__buf": b"", "__blockNum": 0, "__passphrase": b"pass phrase", "__salt": b"mnemonic-salt", "__iterations": c,
+                                                  "__prf": ("pyfunc", F), "closed": False})
+                    try:
+                        if split is None:
+                            got = Evaluator(ctx.repo, externals=ext).call(spec, [n], self_obj=me)
+                        else:
+                            got = Evaluator(ctx.repo, externals=ext).call(spec, [split], self_obj=me) + Evaluator(ctx.repo, externals=ext).call(spec, [n - split], self_obj=me)
+                    except Raised as x:
+                        return [ctx.bad("pbkdf2:PBKDF2.__f", "deriving %d bytes with %d iteration(s) raises %s" % (n, c, x.name), fn, mod, key="chain")]
+                    if got != ref(b"pass phrase", b"mnemonic-salt", c, n):
+                        w = ref(b"pass phrase", b"mnemonic-salt", c, n)
+                        first = next((i for i in range(min(len(got), len(w))) if got[i] != w[i]), min(len(got), len(w))) if isinstance(got, bytes) else 0
+                        return [ctx.bad("pbkdf2:PBKDF2.__f", "with %d iteration(s), %d derived bytes%s differ from RFC 2898 from byte %d on (T_i = U_1 xor … xor U_c, U_1 = PRF(P, S ‖ "
+                                                             "INT32BE(i)), U_j = PRF(P, U_{j-1}))" % (c, n, " read in two parts" if split is not None else "", first), fn, mod,
+                                        key="prf-count" if first == 0 and c > 1 else "chain")]
+    except Undecided:
+        return None
+    return [ctx.ok("pbkdf2:PBKDF2.__f", "PRF applications per block = iterations (free PRF; iterations 1, 2, 3, 7)", fn, mod, key="prf-count"),
+            ctx.ok("pbkdf2:PBKDF2.__f", "U1 = PRF(P, S ‖ INT32BE(i)); result = U1 xor U2 xor …; blocks concatenated and cut to the requested length, also across reads", fn, mod, key="chain")]
+
+
 def c14_5(ctx):
     """PRF applications per block = iterations"""
+    ev = _pbkdf2_cells(ctx)
+    if ev is not None:
+        return ev
     mod = ctx.repo.module("pbkdf2")
     fn = None
     for qn, f_ in mod.functions.items():
